@@ -103,7 +103,8 @@ int main(int argc, char** argv) {
     bool okframe = len == ref.size() && std::equal(msg.begin(), msg.end(), sm.begin() + 4);
     size_t mx = true_max_sig_size(p);
     size_t mysize = p.kkw ? kkw_sig_size(p, tr.challenge.C, tr.challenge.P) : zkb_sig_size(p, tr.challenge.e);
-    bool oksize = mysize == sig.size() && mx <= p.documented_max && sig.size() <= mx && (p.kkw || mx == p.documented_max);
+    auto lay = sig_layout(p, sig);
+    bool oksize = !lay.empty() && mysize == sig.size() && mx <= p.documented_max && sig.size() <= mx && (p.kkw || mx == p.documented_max);
     printf("%-15s lowmc/pk:%s signature:%s frame:%s size-model:%s (len %zu, true max %zu, documented %zu, model perms %llu)\n",
            p.name, okpk ? "ok" : "MISMATCH", oksig ? "ok" : "MISMATCH", okframe ? "ok" : "MISMATCH",
            oksize ? "ok" : "MISMATCH", sig.size(), mx, p.documented_max, (unsigned long long)tr.perms);
